@@ -144,7 +144,8 @@ FaultResult apply_token_fault(const std::string& text, const std::vector<Token>&
         case BlockRef::GUARD:
         case BlockRef::INV: r.text = text + " && " + add; break;
         case BlockRef::PROB:
-            r.text = text + " + " + (fault == TF_SIDE_EFFECT ? std::string{"gi0++"} : (fault == TF_CHAN_ARITH ? chan : "(gi0 > 0 ? " + chan + " : 1)"));
+            // (a weight that is just a channel name fails as a whole: "cannot be used as a probability")
+            r.text = fault == TF_CHAN_ARITH ? chan : text + " + " + (fault == TF_SIDE_EFFECT ? std::string{"gi0++"} : "(gi0 > 0 ? " + chan + " : 1)");
             if (text.find(':') != std::string::npos)
                 return r;
             break;
